@@ -24,6 +24,11 @@ class HistoricallyTimedOperation(AbstractDenseTimeOnlineOperation):
         begin = self.begin
         end = self.end
 
+        if sample and sample[0][0] == self.residual_start:
+            # the operand repeats the sample its previous batch ended with (the operations
+            # return the sample at their last time stamp again): it carries nothing new
+            sample = sample[1:]
+
         if sample:
             # update when the residuals start in this iteration
             self.residual_start = sample[-1][0]
